@@ -77,16 +77,24 @@ def _weights(U):
         ns = M.shape[0]
         return rnp.eye(ns), rnp.ones(ns), sym_real_array("svd_v", (ns, 9))
 
+    norm_defs = []
+
     def norm(X, axis=None):
-        from pyvc.core import spec_mode
+        # Frobenius norm r of X:  r >= 0 and r^2 = sigma, sigma standing for the sum of squares (kept in a side table so that the
+        # solver reasons about three atoms; the contract proves separately that its own sum of squares IS that polynomial)
         tot = 0
         for idx in rnp.ndindex(*X.shape):
             tot = tot + X[idx] * X[idx]
-        with spec_mode():            # a sum of squares: the argument of the square root is non-negative by construction
-            return ssqrt(tot)
+        k = len(norm_defs)
+        sig, r = sreal("normsq_%d" % k), sreal("norm_%d" % k)
+        ctx().assume(r >= 0)
+        ctx().assume(r * r == sig)
+        norm_defs.append((sig, tot))
+        return r
     f = U.fn(F, "BKVectors.get_shell_weights", globs=dict(np=Shim(overrides={"linalg.svd": svd, "linalg.norm": norm}), print=lambda *a, **k: None), model=False)
 
     def body():
+        del norm_defs[:]
         sizes = (2, 4)
         kc = [sym_real_array("kc%d" % s, (n, 3)) for s, n in enumerate(sizes)]
         kl = [rnp.array([[10 * s + i, i, -i] for i in range(n)]) for s, n in enumerate(sizes)]
@@ -111,18 +119,29 @@ def _weights(U):
             pos += n
         U.ensure("shells are emitted whole and in order; lattice and Cartesian vectors stay paired", ok_pair)
         U.ensure("the weight is constant on each shell", ok_w)
-        # completeness within the tolerance: guard passed + flattening exact
+        # completeness within the tolerance, in two steps that keep the solver's work small:
+        #  (1) sum_b w_b b_i b_j over the RETURNED arrays equals, entry by entry, the per-shell sum  sum_s w_s (K_s^T K_s)_ij  (flattening exact)
+        #  (2) the Frobenius deviation of that per-shell sum from the identity is <= bk_complete_tol (this is what the guard let through)
         def M(i, j):
             tot = 0
             for b in range(nb):
                 tot = tot + wk[b] * bk_cart[b, i] * bk_cart[b, j]
             return tot
+        shell_mat = rnp.array([k_.T.dot(k_) for k_ in kc])
+        CE = sum(w_ * m_ for w_, m_ in zip(w_shell, shell_mat))
+        U.ensure("(1) sum_b w_b b_i b_j (returned arrays) = sum over shells of w_s K_s^T K_s, for all i, j",
+                 lambda: land(*[lift(M(i, j)) == lift(CE[i, j]) for i in range(3) for j in range(3)]))
+        D_ = CE - rnp.eye(3)
         dev = 0
-        for i in range(3):
-            for j in range(3):
-                d = M(i, j) - (1 if i == j else 0)
-                dev = dev + d * d
-        U.ensure("returned arrays satisfy  || sum_b w_b b_i b_j - delta_ij ||  <=  bk_complete_tol  (for whatever the SVD returned)", lambda: dev <= tol * tol)
+        for idx in rnp.ndindex(*D_.shape):
+            dev = dev + D_[idx] * D_[idx]
+        if not norm_defs:
+            from pyvc.core import Undecided
+            raise Undecided("the completeness guard no longer goes through np.linalg.norm: the contract cannot bind to it (the stand-in decides)")
+        sig, poly = norm_defs[-1]
+        U.ensure("(2a) the squared Frobenius deviation of sum_s w_s K_s^T K_s from the identity is the quantity whose norm the code tested", lambda: lift(dev) == lift(poly))
+        U.ensure("(2b) that quantity is <= bk_complete_tol^2 (the guard let it through): with (1) and (2a) the returned arrays satisfy the completeness relation within the tolerance, whatever the SVD returned",
+                 lambda: sig <= tol * tol)
         return out
     U.run(body)
     U.external("np.linalg.svd: ANY triple of arrays of the right shapes (the obligation does not rely on it)")
